@@ -590,13 +590,13 @@ class BasicContiguousVector<cntgs::Options<Option...>, Parameter...>
             {
                 return false;
             }
-            return detail::trivial_lexicographical_compare(data_begin(), data_end(), other.data_begin(),
-                                                           other.data_end());
+            if (has_equal_fixed_sizes(other))
+            {
+                return detail::trivial_lexicographical_compare(data_begin(), data_end(), other.data_begin(),
+                                                               other.data_end());
+            }
         }
-        else
-        {
-            return std::lexicographical_compare(begin(), end(), other.begin(), other.end());
-        }
+        return std::lexicographical_compare(begin(), end(), other.begin(), other.end());
     }
 
     constexpr iterator make_iterator(const const_iterator& it) noexcept { return {*this, it.index()}; }
